@@ -1,7 +1,7 @@
 (* C12 — EBP codec: decode is exact, re-encode is byte-identical, built EBPs encode/decode, time survives to 1 ns.
    This file holds only the property statements; proofs live in Proofs/Ebp*.v.
    Model: Model/Ebp.v (ebp/*.go with the repairs of F3 and of the CableLabs grouping loop); Spec: Spec/EbpSpec.v. *)
-From Gots Require Import Base.Prelude Model.Ebp Spec.EbpSpec Proofs.EbpTime Proofs.EbpSync Proofs.EbpDecode Proofs.EbpReencode Proofs.EbpBuild.
+From Gots Require Import Base.Prelude Model.Ebp Spec.EbpSpec Proofs.EbpTime Proofs.EbpSync Proofs.EbpDecode Proofs.EbpReencode Proofs.EbpBuild Proofs.EbpSetters.
 Import Ebp EbpSpec.
 
 (* ---- decode is exact: the readers (g = false: the code as it is; g = true: with the C05 guard patch) invert the Spec serialisers, for every well-formed logical
@@ -105,6 +105,40 @@ Print Assumptions C12_build_same_values_cablelabs.
 Theorem C12_build_same_flags_comcast : forall (e : t) (mask : N), cons_comcast e -> flag (canon_comcast e) mask = flag e mask.
 Proof. exact canon_comcast_flags. Qed.
 Print Assumptions C12_build_same_flags_comcast.
+
+(* ---- the setter API itself: a flag setter called with true on a non-empty EBP sets exactly its own flag (mask m) and nothing
+   else; with false, or on an empty EBP, it does nothing (the API cannot clear a flag); all eight masks ---- *)
+Theorem C12_setter_flags : forall (e : t) (m : N) (v : bool), DataFlags e < 256 -> In m masks ->
+  (forall m', In m' masks -> flag (set_flag e m v) m' = ((negb (DataFieldLength e =? 0) && v && (m =? m')) || flag e m'))
+  /\ DataFlags (set_flag e m v) < 256
+  /\ set_flag e m v = (if negb (DataFieldLength e =? 0) && v then set_DataFlags e (N.lor (DataFlags e) m) else e)
+  /\ DataFieldLength (set_flag e m v) = DataFieldLength e.
+Proof. exact set_flag_spec. Qed.
+Print Assumptions C12_setter_flags.
+
+Theorem C12_value_setters : forall (e : t) (v : N) (tm : Z),
+  Sap (SetSap e v) = v /\ DataFlags (SetSap e v) = DataFlags e /\ DataFieldLength (SetSap e v) = DataFieldLength e
+  /\ DataFlags (SetEBPTime e tm) = DataFlags e /\ DataFieldLength (SetEBPTime e tm) = DataFieldLength e
+  /\ TimeSeconds (SetEBPTime e tm) < 4294967296 /\ TimeFraction (SetEBPTime e tm) < 4294967296
+  /\ IsEmpty (SetIsEmpty e true) = true /\ IsEmpty (SetIsEmpty e false) = false.
+Proof. exact value_setters. Qed.
+Print Assumptions C12_value_setters.
+
+Theorem C12_set_partition_flag : forall e : t, ExtensionFlag e = true -> ExtensionFlags e < 128 ->
+  PartitionFlag (SetPartitionFlag e true) = true /\ ExtensionFlags (SetPartitionFlag e true) = ExtensionFlags e + 128
+  /\ DataFlags (SetPartitionFlag e true) = DataFlags e.
+Proof. exact set_partition_flag. Qed.
+Print Assumptions C12_set_partition_flag.
+
+(* the constructors return consistent, strict, non-empty objects *)
+Theorem C12_create_comcast : cons_comcast CreateComcastEBP /\ strict_comcast CreateComcastEBP
+  /\ fst (ComcastData CreateComcastEBP) = [169; 1; 0].
+Proof. exact create_comcast_cons. Qed.
+Print Assumptions C12_create_comcast.
+Theorem C12_create_cablelabs : cons_cablelabs CreateCableLabsEbp /\ strict_cablelabs CreateCableLabsEbp
+  /\ fst (CableLabsData CreateCableLabsEbp) = [223; 5; 69; 66; 80; 48; 0].
+Proof. exact create_cablelabs_cons. Qed.
+Print Assumptions C12_create_cablelabs.
 
 (* non-vacuity: an object made with the API only *)
 Example C12_cons_cablelabs_example :
